@@ -8,6 +8,7 @@ package rand
 
 import (
 	mrand "math/rand"
+	"sync"
 
 	sched "go.lstv.dev/util/verifsync"
 )
@@ -43,7 +44,14 @@ var (
 )
 
 // Reset forgets all sources (call before re-initialising the package under test).
-func Reset() { Sources, created, global = nil, 0, nil }
+func Reset() {
+	gmu.Lock()
+	Sources, created, global = nil, 0, nil
+	gmu.Unlock()
+}
+
+// gmu guards the registry against goroutines the package under test runs outside the scheduler (timer callbacks).
+var gmu sync.Mutex
 
 func (s *Scripted) Seed(int64) {}
 
@@ -81,7 +89,7 @@ func value(s *Scripted, i int) int64 {
 	return int64(x & (1<<63 - 1))
 }
 
-func newScripted(seed int64, shared bool) *Scripted {
+func newScripted(seed int64, shared bool) *Scripted { // callers hold gmu or are the single controlled thread
 	s := &Scripted{SeedGiven: seed, Index: created, Shared: shared}
 	created++
 	Sources = append(Sources, s)
@@ -103,6 +111,8 @@ func NewZipf(r *Rand, s float64, v float64, imax uint64) *Zipf { return mrand.Ne
 
 func g() *Rand {
 	sched.Yield() // the real top-level functions take a lock (or use per-thread state): one scheduling point, then atomic
+	gmu.Lock()
+	defer gmu.Unlock()
 	if global == nil {
 		if Real {
 			k := created
